@@ -37,7 +37,7 @@ T.setdefault("f_captured", {"A1": 1000, "A2": 4, "B1": "=IFERROR(A2/0,0)+VFAIL(A
 FAIL_CELL = {"f_cycle": "B1", "f_leaf": "B1", "f_mid": "C1", "f_range": "B1", "f_cse": "B1", "f_unknown": "B1", "f_captured": "B1"}
 DEPENDANT = {"f_cycle": "C1", "f_leaf": "E1", "f_mid": "D1", "f_range": "C1", "f_cse": "C1", "f_unknown": "C1", "f_captured": "C1"}
 UNRELATED = {"f_cycle": "D1", "f_leaf": "D1", "f_mid": "E1", "f_range": "D1", "f_cse": "D1", "f_unknown": "D1", "f_captured": "D1"}
-EXCS = (ValueError, NameError, ZeroDivisionError, KeyError)
+EXCS = (ValueError, NameError, ZeroDivisionError, KeyError, RecursionError)   # the last leaves the evaluator as a RecursionError (pycel's own message), not as a PyCelException
 
 
 def _build(tname, cycles):
@@ -189,6 +189,9 @@ def obligations(tier):
             for ei in ((0, 1) if tier == "quick" else (0, 1, 2, 3)):
                 obs.append(Obligation(PROP, f"fail[{t},{'iter' if cycles else 'plain'},{EXCS[ei].__name__}]", __name__, "ob_fail",
                                       (t, cycles, ei, False), timeout=300, float_mode="real", group=t))
+            if t in ("f_leaf", "f_mid") or tier != "quick":
+                obs.append(Obligation(PROP, f"fail[{t},{'iter' if cycles else 'plain'},RecursionError]", __name__, "ob_fail",
+                                      (t, cycles, 4, False), timeout=300, float_mode="real", group=t))
             if cycles and t == "f_leaf":
                 obs.append(Obligation(PROP, f"fail_repair_iter[{t}]", __name__, "ob_fail", (t, True, 0, True), timeout=120,
                                       float_mode="real", group=t, known="C09-iter-overwrite"))
